@@ -93,6 +93,20 @@ def search_labels(deadline, rng):
                     'expected': 'E400=%d E420=%d (goto must name a later label of the same or an enclosing block of the same function; '
                                 'a label must not share its name with a later label of the same block or of an enclosing block)' % (e400, e420),
                     'expect_result': {'E400': e400, 'E420': e420}, 'programs_tried': tried}
+        # ... and the verdict must survive the later stages (analyzers, resolver): rejected with E400 / E420 exactly when the
+        # scoper found such a label, and no stage may fall over a statement that the scoper has poisoned
+        r2 = replayrun.run('alpha', src, timeout=20)
+        if r2.get('status') in ('timeout', 'build-failed', 'unknown'):
+            continue
+        want = (['400'] if e400 else []) + (['420'] if e420 else [])
+        if r2.get('status') != 'ok':
+            return {'mode': 'alpha', 'input_utf8_lossy': src, 'input_hex': src.encode().hex(), 'observed': r2,
+                    'expected': 'no failure of a later stage; errors %s among the reported ones' % want, 'expect_codes_present': want, 'expect_codes_absent': [c for c in ('400', '420') if c not in want]}
+        codes = [c for c in r2['result'].get('errors', '[]').strip('[]').split(',') if c]
+        if any(c not in codes for c in want) or any(c in codes for c in ('400', '420') if c not in want):
+            return {'mode': 'alpha', 'input_utf8_lossy': src, 'input_hex': src.encode().hex(), 'observed': r2,
+                    'expected': 'through the whole pipeline: errors %s reported, %s not reported' % (want, [c for c in ('400', '420') if c not in want]),
+                    'expect_codes_present': want, 'expect_codes_absent': [c for c in ('400', '420') if c not in want]}
     return None
 
 
@@ -174,6 +188,19 @@ def search_syntax(deadline, rng):
             return {'mode': 'syntax', 'input_utf8_lossy': src, 'input_hex': src.encode().hex(), 'observed': res,
                     'expected': 'E840=%d E800=%d E801=%d' % tuple(acc), 'expect_result': {'E840': acc[0], 'E800': acc[1], 'E801': acc[2]},
                     'programs_tried': tried}
+        # ... and every one of these errors must be REPORTED by the whole pipeline (typer, analyzers, linter, resolver): the
+        # resolver collects the errors of all parts of a statement, so the counts by construction are the counts reported
+        r2 = replayrun.run('alpha', src, timeout=20)
+        if r2.get('status') in ('timeout', 'build-failed', 'unknown'):
+            continue
+        want = {'840': acc[0], '800': acc[1], '801': acc[2]}
+        if r2.get('status') != 'ok':
+            return {'mode': 'alpha', 'input_utf8_lossy': src, 'input_hex': src.encode().hex(), 'observed': r2,
+                    'expected': 'no failure of a later stage; reported error counts %s' % want, 'expect_code_counts': want}
+        codes = [c for c in r2['result'].get('errors', '[]').strip('[]').split(',') if c]
+        if any(codes.count(c) != n for c, n in want.items()):
+            return {'mode': 'alpha', 'input_utf8_lossy': src, 'input_hex': src.encode().hex(), 'observed': r2,
+                    'expected': 'through the whole pipeline: reported error counts %s' % want, 'expect_code_counts': want}
     return None
 
 
